@@ -4,7 +4,7 @@ measures the opposite side as orthonormal; threshold rule for construction from 
 import numpy as np
 
 from .. import gen, probe
-from ..drive import call
+from ..drive import call, refused_then_used
 from ..shard import Workload
 from ._common import arm_tt
 from . import ambient
@@ -152,6 +152,23 @@ def w_ortho_trunc(ctx, rng, idx):
     call('TT.ortho_left', t.ortho_left, prop=P, max_rank=mr, threshold=thr)
 
 
+def w_refused(ctx, rng, idx):
+    """a truncating sweep whose per-bond list of maximum ranks has an inadmissible entry (0, negative, non-integer) somewhere - often to
+    the right of bonds whose admissible bounds really truncate - is refused; the caller corrects the list and repeats the call on the same
+    object.  The refusal must have left the represented tensor alone (wrapper); the repeated call is then judged against the original."""
+    x, rows, cols, kind = tensor(rng)
+    d = len(rows)
+    with probe.oracle():
+        t = tt.TT(x)
+    m = ['ortho_left', 'ortho_right', 'ortho'][int(rng.integers(0, 3))]
+    good = [1] + [int(rng.integers(1, 4)) for _ in range(d - 1)] + [1]
+    bad = list(good)
+    bad[int(rng.integers(1, d)) if d > 1 and rng.random() < 0.8 else int(rng.integers(0, d + 1))] = [0, -1, 2.5, -2][int(rng.integers(0, 4))]
+    ctx.describe({'op': 'refused truncating sweep, then the corrected call', 'method': m, 'max_rank': bad, 'corrected': good, 'rows': rows, 'cols': cols, 'ranks': t.ranks, 'kind': kind})
+    refused_then_used('TT.' + m, getattr(t, m), max_rank=bad)
+    call('TT.' + m, getattr(t, m), prop=P, max_rank=good, tags=['after_refused_call'])
+
+
 def w_failpoint(ctx, rng, idx):
     """truncating sweeps with the default SVD driver failing (LinAlgError injected at the LAPACK boundary before the input is
     touched): the gesvd fallback branch must satisfy the same rank and error bounds"""
@@ -228,6 +245,7 @@ WORKLOADS = [
     Workload('from_array', w_from_array, 320, 8000),
     Workload('ortho_trunc', w_ortho_trunc, 200, 5000),
     Workload('failpoint', w_failpoint, 40, 800),
+    Workload('refused', w_refused, 100, 2000),
     Workload('from_large_array', w_from_large_array, 8, 60),
     ambient.WORKLOAD,
 ]
